@@ -23,12 +23,13 @@ class Spec:
     def compute_joint(self):
         """done once in the parent before forking; shards inherit the result"""
         if self.joint is None:
+            target.load_config(None)          # a decoder may consult the configuration: enumerate under the default one, like every concrete run
             ref_dec = dc.make_ref_dec(self.table, self.popcount_rows)
             self.joint = dc.joint_regions(self.decoder, ref_dec, self.nbits, self.fixed, self.skip)
         return self.joint
 
 
-def check_word(acc, spec, cpu, w, a, row, label, rng, cfgov=None):
+def check_word(acc, spec, cpu, w, a, row, label, rng, cfgov=None, strict=False):
     fo = [None]
 
     def full():
@@ -40,6 +41,12 @@ def check_word(acc, spec, cpu, w, a, row, label, rng, cfgov=None):
     fmt = '%#010x' if spec.nbits == 32 else '%#06x'
     acc.case(defined, (spec.nbits, w), cls=label,
              sample=lambda: {'word': fmt % w, 'armulator': a, 'reference_row': row.name if row else None})
+    if not ok and cfgov is not None and strict and not (row is not None and row.cls in (NOTIMPL,)):
+        # a configuration switch that only enables an unimplemented extension (VFP / SIMD present) must not change how words OUTSIDE that extension's
+        # encoding space decode
+        acc.violation('%s:class-under-%s:%s-vs-%s' % (spec.prop, strict, a, row.name if row else 'unallocated'),
+                      {'word': w, 'nbits': spec.nbits, 'kind': 'class', 'cfg': cfgov}, {'armulator': a, 'expected': c, 'row': row.name if row else None})
+        return
     if not ok and cfgov is not None:
         acc.cls('other-config:class-differs')        # class selection is decided on the default configuration (rule 7); here only operands
         return
@@ -118,6 +125,13 @@ def corner_shard(spec, idx, nshards, seed, per_row, cfgname=None):
         if j % nshards != idx or row.cls in (UNDEF, NOTIMPL, UNPRED, NOPISH, dc.HINTISH):
             continue
         letters = sorted(row.fields)
+        if cfgname == 'v7-vfp':
+            # the strict pass: random members of every row as well (the question is whether ANY word of the row decodes differently)
+            for _ in range(24 * per_row):
+                w = row.build(**{l: rng.getrandbits(len(row.fields[l])) for l in letters})
+                row2, _ = table_decode(spec.table, w)
+                if row2 is row:
+                    check_word(acc, spec, cpu, w, dc.outcome_of(spec.decoder, w), row, 'row-member:' + cfgname, rng, cfgov, strict=cfgname)
         for k in letters:
             width = len(row.fields[k])
             mx = (1 << width) - 1
@@ -135,7 +149,7 @@ def corner_shard(spec, idx, nshards, seed, per_row, cfgname=None):
                         acc.cls('corner:other-row-has-priority')
                         continue
                     a = dc.outcome_of(spec.decoder, w)
-                    check_word(acc, spec, cpu, w, a, row, 'field-corner' + (':' + cfgname if cfgname else ''), rng, cfgov)
+                    check_word(acc, spec, cpu, w, a, row, 'field-corner' + (':' + cfgname if cfgname else ''), rng, cfgov, strict=cfgname if cfgname == 'v7-vfp' else False)
     if cfgname is not None:
         target.load_config(None)
     return acc
@@ -207,8 +221,9 @@ def replay_word(spec, w, cfgov=None):
         cpu = spec.cpu(cfgov)
         a = dc.outcome_of(spec.decoder, w)
         row, _ = table_decode(spec.table, w)
+        strict = 'v7-vfp' if (cfgov or {}).get('have_adv_simd_or_vfp') else False
         for sd in range(4):          # the operand comparison draws flags / IT position: a few draws
-            check_word(acc, spec, cpu, w, a, row, 'replay', random.Random(sd), cfgov)
+            check_word(acc, spec, cpu, w, a, row, 'replay', random.Random(sd), cfgov, strict=strict)
     finally:
         if cfgov is not None:
             target.load_config(None)
